@@ -31,6 +31,11 @@ CHECKS = {
          'Held on N generated route tables (plus the exhaustive space of <=2 declarations over a small alphabet) x every request path of depth<=3 over a 5-symbol alphabet x 5 methods x both execution modes, plus percent-encoded spellings (exact expectation) and unclean paths (safety half only): the declaration that ran, its parameter bindings and 404s matched the reference.',
          'Trusts the reference router (c05.go) and the overlay worker that wires the CLI functions the way startServer does (ServeMux + createHandler). Duplicate parameter names in one pattern are not generated.',
          'DESIGN.md §3 C05'),
+ 'C06': ('exploration',
+         'tri-valued credential oracle (must-reject / must-accept / unspecified) + body-execution markers and a provider side-effect counter, observed through the CLI wiring in both execution modes under every credential configuration; lockout histories',
+         'Held on the full matrix of 36 credential configurations x 6 declared auth types x ~36 header shapes x 3 mode variants (about 25k decided probes) plus lockout histories: no request lacking a configured credential got a 2xx/3xx, a body marker or a side effect; canonical credentials were accepted while not locked out; open routes were unaffected; one client could not lock out another through forged forwarding headers.',
+         'Trusts the classification of header shapes in c06.go (a request "carries" a credential only if a header value contains it as a whitespace-delimited whole). Real JWT validation does not exist in the tree: the secret is compared as a bearer token.',
+         'DESIGN.md §3 C06'),
 }
 NA = {}
 for p in props:
